@@ -144,9 +144,14 @@ pub fn parse_debug(txt: &str) -> Result<Vec<PVertex>, String> {
             v.edges.push((e[1].to_string(), e[2].parse().map_err(|_| "bad id")?));
             last_end = e.get(0).unwrap().end();
         }
-        let rest = body[last_end..].trim().trim_start_matches(',').trim();
-        if !rest.is_empty() {
-            v.data = Some(if rest == "--" { vec![] } else { parse_hex(rest).ok_or_else(|| format!("trailing entry of ν{id} is not hex: {rest:?}"))? });
+        // whatever is left once the edges are taken out: the datum is the hex token in it
+        // (`--` for the empty datum), wherever it stands and whatever marks it
+        static HEX: Lazy<Regex> = Lazy::new(|| Regex::new(r#"(?:^|[^0-9A-Za-z-])((?:[0-9A-F]{2}(?:-[0-9A-F]{2})*)|--)(?:$|[^0-9A-Za-z-])"#).unwrap());
+        let rest = EDGE.replace_all(body, " ");
+        let _ = last_end;
+        if let Some(h) = HEX.captures(&rest) {
+            let t = &h[1];
+            v.data = Some(if t == "--" { vec![] } else { parse_hex(t).ok_or_else(|| format!("data of ν{id} is not hex: {t:?}"))? });
         }
         out.push(v);
     }
